@@ -587,7 +587,7 @@ func (s *Sim) closePool() {
 		s.park(a, "h.closer", 0)
 		s.sensClose.Lock() // no caller is between h.start and its first hook while the flag is swapped
 		a.writer = true
-		_ = s.dc.Close()
+		s.safeClose()
 		if a.writer { // hook missing (should not happen)
 			a.writer = false
 			s.sensClose.Unlock()
@@ -598,6 +598,17 @@ func (s *Sim) closePool() {
 		s.finish(a)
 	}()
 	s.waitArrivals()
+}
+
+// safeClose calls DC.Close and turns a panic of Close into a violation (known finding: WaitGroup misuse
+// when a connection is created concurrently with Close).
+func (s *Sim) safeClose() {
+	defer func() {
+		if r := recover(); r != nil {
+			s.violate("close-panics:waitgroup-reuse", fmt.Sprintf("DC.Close panicked: %v", r))
+		}
+	}()
+	_ = s.dc.Close()
 }
 
 // settle switches to free running: every parked actor is released, fake Invokes complete with ok,
@@ -693,7 +704,7 @@ func (s *Sim) Shutdown() {
 		if !was {
 			a := s.getActor(ActCloser)
 			s.register(a)
-			_ = s.dc.Close()
+			s.safeClose()
 		} else {
 			// Close was called by the scenario: wait until it has returned (all Run goroutines gone)
 			a := s.getActor(ActCloser)
